@@ -91,3 +91,193 @@ func TestGenFollowsRefactors(t *testing.T) {
 		t.Errorf("local definition not substituted:\n%s", out)
 	}
 }
+
+// ---------------------------------------------------------------------------------------------------------------------
+// the controller translator (genctl*.go)
+
+// copies the packages the controller translator reads into a scratch tree; edits are keyed by file (relative path)
+func scratchRepoCtl(t *testing.T, edits map[string]func(string) string) string {
+	t.Helper()
+	src := verifRepo()
+	dst := t.TempDir()
+	copyFile := func(rel string) {
+		data, err := os.ReadFile(filepath.Join(src, rel))
+		if err != nil {
+			t.Skipf("source tree not available: %v", err)
+		}
+		text := string(data)
+		if ed := edits[rel]; ed != nil {
+			text2 := ed(text)
+			if text2 == text {
+				t.Fatalf("edit of %s changed nothing", rel)
+			}
+			text = text2
+		}
+		p := filepath.Join(dst, rel)
+		if err := os.MkdirAll(filepath.Dir(p), 0o755); err != nil {
+			t.Fatal(err)
+		}
+		if err := os.WriteFile(p, []byte(text), 0o644); err != nil {
+			t.Fatal(err)
+		}
+	}
+	copyFile("go.mod")
+	for _, dir := range []string{"pkg/controller", "pkg/k8s", "pkg/k8s/scheduler", "pkg/cloudprovider/aws"} {
+		ents, err := os.ReadDir(filepath.Join(src, dir))
+		if err != nil {
+			t.Skipf("source tree not available: %v", err)
+		}
+		for _, e := range ents {
+			if !e.IsDir() && strings.HasSuffix(e.Name(), ".go") && !strings.HasSuffix(e.Name(), "_test.go") {
+				copyFile(filepath.Join(dir, e.Name()))
+			}
+		}
+	}
+	return dst
+}
+
+func ctlDef(out, name string) string {
+	i := strings.Index(out, "Definition "+name+" ")
+	if i < 0 {
+		return ""
+	}
+	j := strings.Index(out[i:], ".\n")
+	return out[i : i+j+1]
+}
+
+var ctlNames = []string{"gen_isScaleOnStarve", "gen_calculateNodesToAdd", "gen_scaleUpCloudProviderNodeGroup", "gen_scaleDownTaint",
+	"gen_scaleNodeGroup_exits", "gen_scaleNodeGroup_recover", "gen_scaleNodeGroup_decide", "gen_scaleOnMaxNodeAge", "gen_safeFromDeletion",
+	"gen_TryRemoveTaintedNodes_keep", "gen_dryMode", "gen_RunOnce_minmax", "gen_IncreaseSize_guard", "gen_DeleteNodes_guard"}
+
+func TestGenCtlDeterministicAndComplete(t *testing.T) {
+	repo := scratchRepoCtl(t, nil)
+	a, err := generateCtlText(repo)
+	if err != nil {
+		t.Fatal(err)
+	}
+	b, _ := generateCtlText(repo)
+	if a != b {
+		t.Fatal("output differs between two runs")
+	}
+	if strings.Contains(a, ": gen_untranslated_marker") || !strings.Contains(a, "Definition gen_ctl_untranslated : list string := [].") {
+		t.Errorf("unexpected untranslated function:\n%s", a)
+	}
+	for _, n := range ctlNames {
+		if ctlDef(a, n) == "" {
+			t.Errorf("output lacks %s", n)
+		}
+	}
+	// grammar pieces on the unchanged tree
+	for name, want := range map[string]string{
+		"gen_scaleNodeGroup_decide":         "then GFall [GI (- (o_fast o))]",                                     // tagless switch -> nested if; unary minus on an option
+		"gen_scaleOnMaxNodeAge":             "(existsb (fun x_n => ((o_maxage o) <? (sat64 ((e_now e) - ((n_created x_n) * 1000000000))))) untainted)", // range + return true -> existsb; time.Since
+		"gen_safeFromDeletion":              "(existsb (fun kv_key => (((fst kv_key) =? id_nodelete) && (negb ((snd kv_key) =? id_empty)))) (n_annots n))", // range over a map
+		"gen_scaleUpCloudProviderNodeGroup": "(if (maxn <? (a_max g)) then maxn else (a_max g))",                 // assignment under an if -> conditional value
+		"gen_scaleDownTaint":                "GCall \"taintOldestN\"%string [GL untainted; GI want]",             // stop call with its arguments
+		"gen_TryRemoveTaintedNodes_keep":    "(opt_get 0 (taint_time n) * 1000000000)",                            // guarded dereference
+		"gen_RunOnce_minmax":                "GI (if (((o_min o) =? 0) && ((o_max o) =? 0)) then (a_min g) else (o_min o))", // field assignment under an if
+		"gen_isScaleOnStarve":               "(negb (((r_cpu (u_big_cpu u)) =? 0) && ((r_mem (u_big_cpu u)) =? 0)))", // IsEmpty() inlined from pkg/k8s/scheduler
+	} {
+		if !strings.Contains(ctlDef(a, name), want) {
+			t.Errorf("%s lacks %q:\n%s", name, want, ctlDef(a, name))
+		}
+	}
+}
+
+// operators, operand order and fields come from the AST: a changed source gives a changed term
+func TestGenCtlFollowsTheSource(t *testing.T) {
+	const ctl, down, awsgo = "pkg/controller/controller.go", "pkg/controller/scale_down.go", "pkg/cloudprovider/aws/aws.go"
+	rep := func(old, new string) func(string) string {
+		return func(s string) string { return strings.Replace(s, old, new, 1) }
+	}
+	for _, c := range []struct {
+		label, file string
+		edit        func(string) string
+		def, want   string
+	}{
+		{"field", ctl, rep("> nodeCapacity.LargestAvailableMemory.Memory", "> nodeCapacity.LargestAvailableCPU.Memory"), "gen_isScaleOnStarve", "((r_mem (k_big_cpu k)) <? (r_mem (u_big_mem u)))"},
+		{"operator", down, rep("|| now.Sub(*taintedTime) > opts.nodeGroup.Opts.HardDeleteGracePeriodDuration()", "|| now.Sub(*taintedTime) >= opts.nodeGroup.Opts.HardDeleteGracePeriodDuration()"), "gen_TryRemoveTaintedNodes_keep", "((o_hard o) <=? (sat64"},
+		{"operator", awsgo, rep("if n.TargetSize()+delta > n.MaxSize() {", "if n.TargetSize()+delta >= n.MaxSize() {"), "gen_IncreaseSize_guard", "((a_max a) <=? ((a_desired a) + d))"},
+		{"operand order", down, rep("if len(opts.untaintedNodes)-nodesToRemove < opts.nodeGroup.Opts.MinNodes {", "if nodesToRemove-len(opts.untaintedNodes) < opts.nodeGroup.Opts.MinNodes {"), "gen_scaleDownTaint", "if ((want - (zlen untainted)) <? mn)"},
+		{"constant", ctl, rep("if nodeGroup.Opts.MaxNodeAgeDuration() <= 0 {", "if nodeGroup.Opts.MaxNodeAgeDuration() <= 5*time.Minute {"), "gen_scaleOnMaxNodeAge", "((o_maxage o) <=? 300000000000)"},
+		{"nesting", ctl, rep("if len(allNodes) == 0 && len(pods) == 0 {", "if len(allNodes) == 0 || len(pods) == 0 {"), "gen_scaleNodeGroup_exits", "if (((zlen nodes) =? 0) || ((zlen pods) =? 0))"},
+		{"which list", ctl, rep("taintedNodes:      taintedNodes,\n\t\t\tforceTaintedNodes: forceTaintedNodes,\n\t\t\tuntaintedNodes:    untaintedNodes,\n\t\t})", "taintedNodes:      forceTaintedNodes,\n\t\t\tforceTaintedNodes: forceTaintedNodes,\n\t\t\tuntaintedNodes:    untaintedNodes,\n\t\t})"), "gen_scaleNodeGroup_recover", "[GL forced; GI (mn - (zlen untainted))]"},
+		{"result order of filterNodes", ctl, rep("untaintedNodes, taintedNodes, forceTaintedNodes, cordonedNodes := c.filterNodes(nodeGroup, allNodes)", "taintedNodes, untaintedNodes, forceTaintedNodes, cordonedNodes := c.filterNodes(nodeGroup, allNodes)"), "gen_scaleNodeGroup_recover", "((zlen tainted) <? mn)"},
+	} {
+		out, err := generateCtlText(scratchRepoCtl(t, map[string]func(string) string{c.file: c.edit}))
+		if _, partial := err.(*partialError); err != nil && !partial { // (another function may have become untranslatable)
+			t.Errorf("%s: %v", c.label, err)
+			continue
+		}
+		if !strings.Contains(ctlDef(out, c.def), c.want) {
+			t.Errorf("%s: %s lacks %q:\n%s", c.label, c.def, c.want, ctlDef(out, c.def))
+		}
+	}
+}
+
+// harmless rewrites give the same term (locals are substituted) or an equivalent one
+func TestGenCtlHarmlessRewrites(t *testing.T) {
+	base, err := generateCtlText(scratchRepoCtl(t, nil))
+	if err != nil {
+		t.Fatal(err)
+	}
+	out, err := generateCtlText(scratchRepoCtl(t, map[string]func(string) string{
+		"pkg/controller/controller.go": func(s string) string {
+			s = strings.Replace(s, "\treturn nodeGroup.Opts.ScaleOnStarve &&\n\t\t((!podRequests.LargestPendingCPU.IsEmpty() && podRequests.LargestPendingCPU.MilliCPU >",
+				"\tpendingCPU := podRequests.LargestPendingCPU\n\treturn nodeGroup.Opts.ScaleOnStarve &&\n\t\t((!pendingCPU.IsEmpty() && pendingCPU.MilliCPU >", 1)
+			return strings.Replace(s, "\tswitch {\n\t// --- Scale Down conditions ---", "\tswitch {\n\tdefault:\n\t// --- Scale Down conditions ---", 1)
+		},
+		"pkg/controller/scale_down.go": func(s string) string {
+			return strings.Replace(s, "\tnodegroupName := opts.nodeGroup.Opts.Name\n\tnodesToRemove := opts.nodesDelta", "\tnodegroupName := opts.nodeGroup.Opts.Name\n\tvar nodesToRemove int\n\tnodesToRemove = opts.nodesDelta", 1)
+		},
+	}))
+	if err != nil {
+		t.Fatal(err)
+	}
+	for _, n := range []string{"gen_isScaleOnStarve", "gen_scaleNodeGroup_decide", "gen_scaleDownTaint"} {
+		if ctlDef(base, n) != ctlDef(out, n) {
+			t.Errorf("%s changed under a harmless rewrite:\n%s\n%s", n, ctlDef(base, n), ctlDef(out, n))
+		}
+	}
+}
+
+// outside the grammar or the vocabulary: an error naming the position, that function alone emitted as GenUntranslated
+func TestGenCtlRejectsOutsideGrammar(t *testing.T) {
+	const ctl, down = "pkg/controller/controller.go", "pkg/controller/scale_down.go"
+	rep := func(old, new string) func(string) string {
+		return func(s string) string { return strings.Replace(s, old, new, 1) }
+	}
+	for _, c := range []struct {
+		label, file string
+		edit        func(string) string
+		def, msg    string
+	}{
+		{"for statement", ctl, rep("\treturn nodeGroup.Opts.ScaleOnStarve &&", "\tfor i := 0; i < 1; i++ {\n\t}\n\treturn nodeGroup.Opts.ScaleOnStarve &&"), "gen_isScaleOnStarve", "controller.go:468: statement outside the controller grammar"},
+		{"field outside the vocabulary", ctl, rep("\treturn nodeGroup.Opts.ScaleOnStarve &&", "\treturn nodeGroup.Opts.LabelKey != \"\" &&"), "gen_isScaleOnStarve", "field LabelKey of NodeGroupOptions (StateOpts) is not in the declared vocabulary"},
+		{"unguarded dereference", down, rep("if err != nil || taintedTime == nil {", "if err != nil {"), "gen_TryRemoveTaintedNodes_keep", "not known to be non-nil on this path"},
+		{"accumulating loop", ctl, rep("\tfor _, n := range untaintedNodes {\n", "\tcount := 0\n\tfor _, n := range untaintedNodes {\n\t\tcount++\n"), "gen_scaleOnMaxNodeAge", "statement outside the controller grammar"},
+		{"action call inside an expression", down, rep("tainted := c.taintOldestN(opts.untaintedNodes, opts.nodeGroup, nodesToRemove)", "tainted := append([]int{}, c.taintOldestN(opts.untaintedNodes, opts.nodeGroup, nodesToRemove)...)"), "gen_scaleDownTaint", "outside the controller grammar"},
+		{"unknown string in a decision", down, rep("if key == NodeEscalatorIgnoreAnnotation && val != \"\" {", "if key == NodeEscalatorIgnoreAnnotation && val != \"false\" {"), "gen_safeFromDeletion", "a string the model does not know"},
+		{"unknown call", ctl, rep("\treturn c.Opts.DryMode || nodeGroup.Opts.DryMode", "\treturn c.Opts.DryMode || nodeGroup.Opts.DryMode || os.Getenv(\"DRY\") != \"\""), "gen_dryMode", "outside the declared vocabulary"},
+		{"slice anchor gone", ctl, rep("\tc.calculateNewNodeMetrics(nodegroup, nodeGroup)\n", ""), "gen_scaleNodeGroup_decide", "calls calculateNewNodeMetrics (slice anchor)"},
+	} {
+		out, err := generateCtlText(scratchRepoCtl(t, map[string]func(string) string{c.file: c.edit}))
+		if err == nil {
+			t.Errorf("%s: translation succeeded:\n%s", c.label, ctlDef(out, c.def))
+			continue
+		}
+		if _, partial := err.(*partialError); !partial {
+			t.Errorf("%s: not a partial translation: %v", c.label, err)
+		}
+		if !strings.Contains(err.Error(), c.msg) || !strings.Contains(err.Error(), c.def+": pkg/") {
+			t.Errorf("%s: error does not name the function, the position and the reason (%q): %v", c.label, c.msg, err)
+		}
+		if !strings.Contains(out, "Definition "+c.def+" : gen_untranslated_marker := GenUntranslated.") {
+			t.Errorf("%s: %s is not emitted as GenUntranslated", c.label, c.def)
+		}
+		// (safeFromDeletion and dryMode are also inlined into other translated functions)
+		if n := strings.Count(out, ": gen_untranslated_marker"); n != 1 && c.def != "gen_safeFromDeletion" && c.def != "gen_dryMode" {
+			t.Errorf("%s: %d functions untranslated, expected only %s", c.label, n, c.def)
+		}
+	}
+}
